@@ -408,7 +408,7 @@ fn rcmp_f64(a: &Version, b: &Version) -> Ordering {
 // ------------------------------------------------------------------- C16 ---
 
 pub fn c16_universe() -> Vec<Version> {
-    let tags = ["", "0", "1", "a", "a.0", "a.1", "b", "0.a", "1.0"];
+    let tags = ["", "0", "1", "a", "a.0", "a.1", "b", "0.a", "1.0", "a.0.1", "a.0.b"];
     let mut out = vec![];
     for ma in 0..3u64 {
         for mi in 0..3u64 {
@@ -623,7 +623,8 @@ pub fn c14_pool() -> Vec<Version> {
     ]
 }
 
-pub const C14_RANGES: [&str; 40] = [
+pub const C14_RANGES: [&str; 46] = [
+    "1.x || ^1.2.3-a", "<3.0.0 || 1.0.0 - 1.2.3-b", ">=1.0.0 || 1.2.3-a", "^1.2.3-a || 1.x", "* || 2.0.0-0", ">=1.2.3-a <1.2.3 || <=1.2.3-b || 1.x",
     "*", "1.2.3", "=1.2.4", ">1.2.3", ">=1.2.3", "<1.2.4", "<=1.2.4", "~1.2.3", "^1.2.3", "1.x", "1.2.x", "1 - 2", "1.2.3 - 1.2.4", ">=1.2.3-a", ">1.2.3-a", "<1.2.3-b", "<=1.2.3-b",
     "~1.2.3-a", "^1.2.3-a", "1.2.3-a", "1.2.3-a - 1.2.3-b", ">=1.2.3-a <1.3.0", ">=1.3.0-a", "^2.0.0-0", ">=3.0.0-rc.0", "<0.0.0-1", ">=0.0.0-0", "1.2.3 || 2.0.0", "1.2.3-a || >=2", "<1.0.0 || >2.0.0",
     ">=1.0.0 <1.0.0", ">5", "<0.0.0", "1.2.3-a || 1.2.3-b", "^0.0.0-0", ">=1.2.4 <1.2.4-0", "2.x || 1.2.3-b", ">=1.2.3+b", "<=1.2.4+zzz", "0.0.0-0 - 3.0.0-rc.1",
